@@ -106,6 +106,8 @@ def reindexed(df, rng, which):
         out.index = pd.Index(lab)
     elif which == 6:  # an index called like a column of the frame
         out.index = pd.Index(np.arange(n)[::-1], name="x")
+    elif which == 8:  # ... or like a variable of the caller's namespace that formulas use as an argument
+        out.index = pd.Index(np.arange(n)[::-1] + 100, name=["pw", "gain", "kn_x", "lv_k"][n % 4])
     else:
         out.index = pd.Index([None if i % 4 == 1 else f"k{i}" for i in range(n)], dtype=object, name="s")
     return out
@@ -204,9 +206,10 @@ def judge(case, m):
     run("row-permutation", df.iloc[perm], perm, "rows permuted (index labels kept)")
     perm2 = rng.permutation(n)
     run("row-permutation", df.iloc[perm2].reset_index(drop=True), perm2, "rows permuted, index reset")
-    which = int(rng.integers(0, 8))
+    which = int(rng.integers(0, 9))
     run("index-relabelling", reindexed(df, rng, which), None, ["non-unique ints", "strings", "reversed range", "MultiIndex", "datetimes",
-                                                               "NaN labels", "index named like a column", "None labels, named like a column"][which])
+                                                               "NaN labels", "index named like a column", "None labels, named like a column",
+                                                               "index named like a namespace variable"][which])
     cols = list(df.columns)
     rng.shuffle(cols)
     run("column-order", df[cols], None, "columns shuffled")
